@@ -680,7 +680,39 @@ func (fv *FuncVC) inertAllowed(cc *ssa.CallCommon) bool {
 	if f.String() == "context.Background" {
 		return true
 	}
+	if fv.P.inModule(f) && poolReleaseOnly(f) {
+		// handing a consumed argument back to its pool (putEvent, putArray): no hook, callback,
+		// marshaler or writer can run, and the call is checked against the function's precondition
+		return true
+	}
 	return fv.inertOwnMethod(cc)
+}
+
+// poolReleaseOnly: the function makes no dynamic call and no static call other
+// than (*sync.Pool).Put, and cannot panic explicitly.
+func poolReleaseOnly(f *ssa.Function) bool {
+	if len(f.Blocks) == 0 {
+		return false
+	}
+	puts := 0
+	for _, b := range f.Blocks {
+		for _, in := range b.Instrs {
+			switch x := in.(type) {
+			case *ssa.Panic, *ssa.Go, *ssa.Defer:
+				return false
+			case *ssa.Call:
+				if _, isB := x.Call.Value.(*ssa.Builtin); isB {
+					continue
+				}
+				g := x.Call.StaticCallee()
+				if g == nil || g.String() != "(*sync.Pool).Put" {
+					return false
+				}
+				puts++
+			}
+		}
+	}
+	return puts > 0
 }
 
 // inertOwnMethod: a call to another guarded method of the same nil receiver;
